@@ -358,7 +358,7 @@ def run_hashers(case):
     try:
         from torrentfile.mixins import ProgMixin
         size, P = case["size"], case["P"]
-        data = content("hashers/%d" % case["id"], size)
+        data = content("hashers/%d" % case["id"], size, mode=case.get("mode", "rand"))
         path = os.path.join(sbx, "f.bin")
         write_file(path, data)
         tab2 = alpha.merkle_table(data, 1, block=block)
